@@ -10,7 +10,7 @@ HOSTS = ['a.test', 'b.test', 'c.test']
 IPS = {'a.test': '10.0.0.1', 'b.test': '10.0.0.2', 'c.test': '10.0.0.3'}
 
 DEFAULT_OPTS = dict(recursive=1, level=0, pagereq=0, spanhosts=0, strong=1, tries=2, maxredir=3, robots=0, auth=0, sitemaps=0,
-                    tags='', noparent=0)
+                    tags='', noparent=0, retryconn=0, retrydns=0)
 
 
 def U(i, kind='page', links=(), host='a.test', rto=0, rejected=0, disallowed=0, nofollow=0, path=None, **kw):
@@ -87,7 +87,8 @@ def site_desc(scn):
             if r['kind'] == 'rules' and 'disallow' not in r:
                 r['disallow'] = ['/priv/']
             robots[h] = r
-    return dict(hosts={h: IPS[h] for h in hs}, urls=urls, robots=robots)
+    return dict(hosts={h: IPS[h] for h in hs}, urls=urls, robots=robots, refuse=list(scn.get('refuse', ())),
+                nodns=list(scn.get('nodns', ())))
 
 
 def argv(scn, db, directory):
@@ -118,6 +119,10 @@ def argv(scn, db, directory):
         a += o['tags'].split()
     if o.get('noparent'):
         a.append('--no-parent')
+    if o.get('retryconn'):
+        a.append('--retry-connrefused')
+    if o.get('retrydns'):
+        a.append('--retry-dns-error')
     if o['auth'] == 1:
         a += ['--http-user', 'u', '--http-password', 'p']
     elif o['auth'] == 2:
@@ -305,6 +310,25 @@ def c18_catalogue(quick):
                     out.append(scenario('%s-T%d-R%d-A%d' % (name, T, R, auth), urls,
                                         dict(tries=T, maxredir=R, auth=auth), N=1, benign=0))
     out.append(scenario('error-forever-N2', loops['error-forever'], dict(tries=2), N=2, benign=0))
+    # a host that refuses every connection / a name that never resolves: permanent by default, retried (and counted)
+    # with --retry-connrefused / --retry-dns-error
+    dead = [U(1, links=[2, 3]), U(2, host='c.test'), U(3)]
+    for T in (1, 3):
+        for rc in (0, 1):
+            sc = scenario('refused-forever-T%d-retry%d' % (T, rc), dead, dict(tries=T, spanhosts=1, retryconn=rc), N=1, benign=0)
+            sc['refuse'] = ['c.test']
+            out.append(sc)
+            sc = scenario('nodns-forever-T%d-retry%d' % (T, rc), dead, dict(tries=T, spanhosts=1, retrydns=rc), N=1, benign=0)
+            sc['nodns'] = ['c.test']
+            out.append(sc)
+    # robots.txt itself is a redirect cycle: the redirect limit applies to it too
+    for R in (0, 3):
+        out.append(scenario('robots-redirect-cycle-R%d' % R, [U(1, links=[2]), U(2)], dict(robots=1, maxredir=R, tries=2), N=1,
+                            robots={'a.test': {'kind': 'redirect', 'location': 'http://a.test/robots.txt'}}, benign=0))
+        out.append(scenario('robots-redirect-pingpong-R%d' % R, [U(1, links=[2, 3]), U(2, host='b.test'), U(3)],
+                            dict(robots=1, maxredir=R, tries=2, spanhosts=1), N=1,
+                            robots={'a.test': {'kind': 'redirect', 'location': 'http://b.test/robots.txt'},
+                                    'b.test': {'kind': 'redirect', 'location': 'http://a.test/robots.txt'}}, benign=0))
     # robots.txt itself keeps failing: the retry limit must still end the work on every URL of that origin
     for T in (1, 2):
         out.append(scenario('robots-error-forever-T%d' % T, [U(1, links=[2]), U(2)], dict(robots=1, tries=T), N=1,
